@@ -15,7 +15,7 @@ import (
 func init() {
 	Registry["C15"] = C15
 	Metas["C15"] = Meta{
-		Explanation: "Decides the structural clauses of C15 for both constructors. The constructor is evaluated abstractly over all its paths (sym: symbolic configuration, default configuration opaque); a go statement is an event with callee, argument terms and the memory of that path, and the goroutine body is evaluated under those terms (select forks a path per case; ticker creation, receives and DeleteExpired calls are events; paths cut at the loop bound are kept) - wherever the code lives (function literal, helper, method of a janitor struct, another file): (J1) a goroutine is started exactly on the paths whose condition establishes that the interval its ticker is built from is strictly positive, and on no path that establishes a positive interval without starting it; every tick is followed by DeleteExpired on the cache object built by this call and then by waiting again; the interval reaches that guard as the caller gave it (every option function, evaluated together with the function it returns on a symbolic config, replaces exactly its own field by its own argument; the NewDefault family stores each duration argument on every path); (J2) the values handed to the goroutine and every function that runs inside it hold nothing through which the outer wrapper is reachable, and the wrapper allocation is used only to embed the inner object, as SetFinalizer's first argument and as the returned interface value; (J3) runtime.SetFinalizer(wrapper, fn) is executed on every path to the constructor's return, fn captures nothing and - evaluated on the wrapper of the same path - closes the very channel that path's janitor waits on; the constructor returns the wrapper; (J4) receiving the stop signal ends the goroutine, no completed path ends without it, the stop channel is one created by this constructor call and only the finalizer (and what it calls) closes a channel; (J5) the goroutine does nothing besides waiting, cleaning up and stopping (diagnostic hooks apart), every go statement of the package is one reached from a constructor path, and nothing outside the janitor calls DeleteExpired internally; (J6) what the janitor relies on is restated: every DeleteExpired call makes its pass over the map (C08.S6) and decides per entry as the reference table says, on every path and without panicking (the DeleteExpired rows of C01.T3). NOT decided: 'within a bounded number of intervals', GC / finalizer timing, goroutine counts.",
+		Explanation: "Decides the structural clauses of C15 for both constructors. The constructor is evaluated abstractly over all its paths (sym: symbolic configuration, default configuration opaque); a go statement is an event with callee, argument terms and the memory of that path, and the goroutine body is evaluated under those terms (select forks a path per case; ticker creation, receives and DeleteExpired calls are events; paths cut at the loop bound are kept) - wherever the code lives (function literal, helper, method of a janitor struct, another file): (J1) a goroutine is started exactly on the paths whose condition establishes that the interval its ticker is built from is strictly positive, and on no path that establishes a positive interval without starting it; every tick is followed by DeleteExpired on the cache object built by this call and then by waiting again; the interval reaches that guard as the caller gave it (every option function, evaluated together with the function it returns on a symbolic config, replaces exactly its own field by its own argument; the NewDefault family stores each duration argument on every path); (J2) the values handed to the goroutine and every function that runs inside it hold nothing through which the outer wrapper is reachable, and the wrapper allocation is used only to embed the inner object, as SetFinalizer's first argument and as the returned interface value; (J3) runtime.SetFinalizer(wrapper, fn) is executed on every path to the constructor's return, fn captures nothing and - evaluated on the wrapper of the same path - closes the very channel that path's janitor waits on; the constructor returns the wrapper; (J4) receiving the stop signal ends the goroutine, no completed path ends without it, the stop channel is one created by this constructor call and only the finalizer (and what it calls) closes a channel; (J5) the goroutine does nothing besides waiting, cleaning up and stopping (diagnostic hooks apart), every go statement of the package is one reached from a constructor path, and nothing outside the janitor calls DeleteExpired internally; (J6) what the janitor relies on is restated: every DeleteExpired call makes its pass over the map (C08.S6) and decides per entry as the reference table says, on every path and without panicking (the DeleteExpired rows of C01.T3). (J7) no normalisation step squeezes the interval through an integer type that is 32 bits wide on 32-bit platforms (restated from C09.X6: 3 s would become 0, a negative interval positive). NOT decided: 'within a bounded number of intervals', GC / finalizer timing, goroutine counts.",
 		Rule:        "one obligation per (rule, constructor | goroutine function | call site); non-trivial = decided from the evaluated paths of the constructor and of the goroutine it starts, or from dominance, capture and use-set queries on SSA",
 		Assumptions: []string{"runtime.SetFinalizer runs fn when the wrapper becomes unreachable", "time.Ticker delivers ticks"},
 	}
@@ -284,6 +284,13 @@ func C15(r *Run) *core.Report {
 		recordTwin()
 	}
 	rep.MinCount("C15.J1", "janitor go statements", nGo, 2)
+	// J7: 'the interval the guard tests is the caller's' also needs that no normalisation step squeezes it through a
+	// 32-bit integer on the way (restated from C09.X6)
+	{
+		tmp := core.NewReport("C15")
+		c09X6(r, tmp, "C09.X6")
+		borrow(rep, tmp, "C15.J7", "C09.X6")
+	}
 	// the interval the guard tests is the caller's: the NewDefault family hands its arguments on unconditionally
 	for _, v := range defaultCtorFlow(r, rep, "C15.J1") {
 		// per twin (the generic constructor family is CacheOf's), for the twins' comparison
